@@ -18,8 +18,8 @@ ASSUMPTIONS = ['unitless (valueunit None) spectra stored in m / um / nm / angstr
                'the spectrum\'s integral is that of its piecewise-linear interpolant, evaluated independently (bounds may fall between samples)',
                "Simpson's rule is exercised only with uniformly spaced centres and data, as the property scopes it"]
 PLAN = {'quick': {'gen': 8}, 'thorough': {'gen': 16, 'tests': 1, 'docs': 1}}
-REQUIRED_BUCKETS = ['bin:spiky', 'bin:narrow-line', 'crop:outside-data', 'bin:integer-centres', 'values:small-int', 'bin:zero-spectrum', 'integrate:bright-band-below-bounds', 'wave:integer-dtype', 'unit:m', 'unit:um', 'unit:nm', 'unit:angstrom', 'bin:unit-same', 'bin:unit-differs', 'integrate:trapz', 'integrate:simps', 'bin:trapz', 'bin:simps', 'ends:symmetric', 'ends:inside',
-                    'preserve:True', 'preserve:False', 'grid:nonuniform', 'op:crop', 'op:trim', 'op:pad', 'op:append', 'value:narrow-dtype', 'resample:short-narrow', 'value:signed', 'bin:narrow-float-centres', 'bin:fill-pair', 'wave:narrow-float', 'integrate:wave-narrow-float',
+REQUIRED_BUCKETS = ['bin:density', 'bin:density:unit-differs', 'bin:spiky', 'bin:narrow-line', 'crop:outside-data', 'bin:integer-centres', 'values:small-int', 'bin:zero-spectrum', 'integrate:bright-band-below-bounds', 'wave:integer-dtype', 'unit:m', 'unit:um', 'unit:nm', 'unit:angstrom', 'bin:unit-same', 'bin:unit-differs', 'integrate:trapz', 'integrate:simps', 'bin:trapz', 'bin:simps', 'ends:symmetric', 'ends:inside',
+                    'preserve:True', 'preserve:False', 'grid:nonuniform', 'op:crop', 'op:trim', 'op:pad', 'op:append', 'value:narrow-dtype', 'resample:short-narrow', 'value:signed', 'bin:narrow-float-centres', 'bin:fill-pair', 'wave:narrow-float', 'integrate:wave-narrow-float', 'integrate:wave-integer',
                     'op:resample', 'op:raised', 'history:len>=6']
 REQUIRED_ANCHORS = ['probe:Spectrum.crop', 'probe:Spectrum.trim', 'probe:Spectrum.pad', 'probe:Spectrum.append',
                     'probe:Spectrum.resample', 'anchor:Spectrum.integrate', 'anchor:Spectrum.bin', 'anchor:Spectrum.ends']
@@ -258,25 +258,40 @@ def workload(ctx, lentil):
                       'integration is not additive over adjacent intervals that meet at a sample point', desc,
                       scale=abs(whole) + 1e-300)
     # ---- wavelength grids held in single / half precision: the same numbers as doubles, the same integral ---------------------
-    for i in range(max(6, n // 10)):
-        wf = [np.float32, np.float16][i % 2]
+    # (and integer-typed grids - whole nanometres from a file, np.arange(400, 701): bounds between the samples are still fractions)
+    for i in range(max(12, n // 6)):
+        wf = [np.float32, np.float16, np.int32, np.uint16, np.int64, np.uint64][i % 6]
         m = int(rng.integers(3, 12))
-        wn = np.sort(rng.uniform(300, 2000, size=m)).astype(wf)
+        integer = np.dtype(wf).kind in 'iu'
+        if integer:
+            wn = np.unique(rng.integers(300, 2000, size=m)).astype(wf)
+            if wn.size < 3:
+                continue
+            m = int(wn.size)
+        else:
+            wn = np.sort(rng.uniform(300, 2000, size=m)).astype(wf)
         if np.any(np.diff(wn.astype(float)) <= 0):
             continue
         vv = rng.uniform(0.5, 3, size=m)
-        ctx.case({'integrate-narrow-wave': np.dtype(wf).name, 'n': m}, ['integrate:wave-narrow-float'])
+        tag = 'wave-integer' if integer else 'wave-narrow-float'
+        ctx.case({'integrate-narrow-wave': np.dtype(wf).name, 'n': m}, ['integrate:' + tag])
         try:
             for mth in ('trapz', 'simps'):
                 lo_, hi_ = float(wn[0]) + 0.37 * float(wn[1] - wn[0]), float(wn[-1]) - 0.41 * float(wn[-1] - wn[-2])
                 for bounds in ((None, None), (lo_, hi_)):
                     Ia = float(S(wn.copy(), vv.copy()).integrate(bounds[0], bounds[1], mth))
                     Ib = float(S(wn.astype(float), vv.copy()).integrate(bounds[0], bounds[1], mth))
-                    ctx.close('integrate:exact-pl', np.array([Ia]), np.array([Ib]), 1e-12, f'integrate|wave-narrow-float|{mth}',
-                              'the integral over a wavelength grid held in single / half precision differs from that over the same numbers as doubles',
+                    ctx.close('integrate:exact-pl', np.array([Ia]), np.array([Ib]), 1e-12, f'integrate|{tag}|{mth}',
+                              'the integral over a wavelength grid held in single / half precision or an integer type differs from that over the same numbers as doubles',
                               {'dtype': np.dtype(wf).name, 'method': mth, 'bounds': list(bounds)}, scale=abs(Ib) + 1e-300)
+                    if mth == 'trapz':
+                        L_, H_ = (float(wn[0]), float(wn[-1])) if bounds[0] is None else bounds
+                        ex_ = sm.integral_pl(wn.astype(float), vv, L_, H_)
+                        ctx.close('integrate:exact-pl', np.array([Ia]), np.array([ex_]), 1e-11, f'integrate|{tag}|exact',
+                                  'trapezoid integration over a grid held in a narrow / integer type is not exact for piecewise-linear data', 
+                                  {'dtype': np.dtype(wf).name, 'bounds': list(bounds)}, scale=abs(ex_) + 1e-300)
         except Exception as e:
-            ctx.check(False, 'integrate:exact-pl', f'integrate|wave-narrow-float|raises={type(e).__name__}', str(e), {'dtype': np.dtype(wf).name})
+            ctx.check(False, 'integrate:exact-pl', f'integrate|{tag}|raises={type(e).__name__}', str(e), {'dtype': np.dtype(wf).name})
     # ---- bin -------------------------------------------------------------------------------------------
     for i in range(n):
         method = 'trapz' if rng.random() < 0.6 else 'simps'
@@ -313,10 +328,15 @@ def workload(ctx, lentil):
         # works entirely in u_c (a unitless spectrum keeps its values under a wavelength-unit conversion)
         u_s = sm.WAVE_CANON[int(rng.integers(0, 4))]
         u_c = u_s if rng.random() < 0.6 else sm.WAVE_CANON[int(rng.integers(0, 4))]
-        sp = S(w * sm.wave_factor('nm', u_s), v, waveunit=u_s)
+        # ... and a per-wavelength density (photlam / wlam / flam) keeps the power in every bin: its values scale inversely
+        vu = None if i % 3 else ['photlam', 'wlam', 'flam'][(i // 3) % 3]
+        sp = S(w * sm.wave_factor('nm', u_s), v, waveunit=u_s, valueunit=vu)
+        if vu is not None:
+            v = v / (sm.wave_factor('nm', u_c) / sm.wave_factor('nm', u_s))
+            ctx.bucket('bin:density' + (':unit-differs' if u_s != u_c else ''))
         w, c, span = w * sm.wave_factor('nm', u_c), c * sm.wave_factor('nm', u_c), span * sm.wave_factor('nm', u_c)
         desc = {'bin': method, 'ends': ends, 'preserve': preserve, 'n': m, 'nb': nb, 'linear': bool(linear),
-                'units': [u_s, u_c], 'w': probe.fp_array(w)[:8], 'c': probe.fp_array(c)[:8]}
+                'units': [u_s, u_c], 'valueunit': vu, 'w': probe.fp_array(w)[:8], 'c': probe.fp_array(c)[:8]}
         ctx.case(desc, [f'bin:{method}', f'ends:{ends}', f'preserve:{preserve}', 'bin:unit-same' if u_s == u_c else 'bin:unit-differs']
                  + ([] if uni_data else ['grid:nonuniform']))
         fp_sp = probe.fingerprint(sp)
